@@ -473,3 +473,34 @@ func BadListTwice(in []string, k string) []string {
 	}
 	return out
 }
+
+// a position-by-position comparison decides on both sides of every position
+func GoodLexLess(a, b []byte) bool {
+	for i := range a {
+		if a[i] < b[i] {
+			return true
+		}
+		if a[i] > b[i] {
+			return false
+		}
+	}
+	return false
+}
+
+func GoodLexLessNeq(a, b []byte) bool {
+	for i := range a {
+		if a[i] != b[i] {
+			return a[i] < b[i]
+		}
+	}
+	return false
+}
+
+func BadLexLess(a, b []byte) bool {
+	for i := range a {
+		if a[i] < b[i] {
+			return true
+		}
+	}
+	return false
+}
